@@ -166,7 +166,13 @@ def build_with_synth(spec, rng, n):
         for r in rules:
             inner = SynthRule(synth_script(rng, n * 2 + 30)) if r['type'] == 'synth' else next(it)
             b.rules_all.append(inner)
-            ctl.add_rule(B.RecordingRule(inner, b))
+            proxy_ = B.RecordingRule(inner, b)
+            ctl.add_rule(proxy_)
+            if spec.get('same_rule_twice') and len(b.rules_all) == 1:
+                # the user adds the SAME rule object a second time: the list has two entries, and whenever that rule is
+                # applicable two rules are (documented ValueError)
+                ctl.add_rule(proxy_)
+                b.rules_all.append(inner)
         b.control = ctl
     return b
 
@@ -181,10 +187,15 @@ def standalone(ctx, i, rng, case):
     spec, n, kinds = make_spec(rng, i)
     if not spec['rules']:
         spec['rules'].append({'type': 'synth', 'script': None})
+    if i % 9 == 5:
+        spec['same_rule_twice'] = True
+        ctx.count('controls_with_the_same_rule_added_twice')
     b = build_with_synth(spec, rng, n)
     STATE['b'] = b
     un = B.g().un
-    nr = len(spec['rules'])
+    nr = len(spec['rules']) + (1 if spec.get('same_rule_twice') else 0)
+    if spec.get('same_rule_twice'):
+        kinds = [kinds[0]] + list(kinds)
     live = None
     ref = spec['_ref']
     for j in range(30):
